@@ -57,6 +57,11 @@ def scenarios():
     sc["S10_eval_vs_nested_load"] = dict(setup=[B("eval", "fsm_a1", "root")],
                                          procs=[B("eval", "fsm_a2", "root"), B("load", None, None, "/a/b/y")],
                                          loads={1: ["g(1)", "g(2)"]}, final={"/a/x": ("fsm_a2", "f"), "/a/b/y": ("fsm_a2", "g")})
+    # an evaluation that only LOADS /a/x (and keeps /out/r) runs while another process re-keeps /a/x with changed code:
+    # whatever the interleaving, /a/x must afterwards serve the value of the process that kept it
+    sc["S12_reader_eval_vs_rekeep"] = dict(setup=[B("keep", "fsm_a1", "f", "/a/x")],
+                                           procs=[B("eval", "fsm_r1", "root_r"), B("keep", "fsm_a2", "f", "/a/x")],
+                                           allowed={0: ["r(f(1))", "r(f(2))"]}, final={"/a/x": ("fsm_a2", "f")}, final_norekeep=True)
     sc["S11_none_result"] = dict(setup=[], procs=[B("keep", "fsm_a1", "n", "/a/n"), B("keep", "fsm_a1", "n", "/a/n")], final={"/a/n": ("fsm_a1", "n")})
     return sc
 
@@ -77,7 +82,10 @@ def judge(name, sc, run, m):
         r = p.result
         if r[0] == "ok":
             val, log = r[1]
-            if d["kind"] in ("keep", "eval"):
+            if i in sc.get("allowed", {}):
+                if val not in sc["allowed"][i]:
+                    probs.append((f"C07|{name}|{d['kind']}|wrong_value={_abbr(val)}", f"{role} returned {val!r}, allowed {sc['allowed'][i]!r}"))
+            elif d["kind"] in ("keep", "eval"):
                 if val != _expected(sc["procs"][i]):
                     probs.append((f"C07|{name}|{d['kind']}|wrong_value={_abbr(val)}", f"{role} returned {val!r}, expected {_expected(sc['procs'][i])!r}"))
             elif d["kind"] == "load":
